@@ -20,6 +20,8 @@ Extracted items
   G15 data movement of the three synchronous process_into_buffer bodies (35 formulas)
   G16 lib.rs: the five provided methods of the Resampler trait (statement shapes; which getter sizes what, who is called)
   G17 what the constructors reject (validate_ratios, validate_sample_rates) and that they validate first
+  G18 what an asynchronous call reports and leaves behind (ratio after the call, the two counts, order of the consumed-count read)
+  (G7, G13, G15: a local or parameter a formula reads must not be re-bound in the function it was taken from)
 """
 import json
 import os
@@ -1093,11 +1095,36 @@ def gen_formula(item, lean_name, text, ftypes, consts, want_type, doc, extra_loc
             [n for n, _ in p.params])
 
 
+LAST_BODY = [None]
+LAST_OWN = [None]
+# locals that the loops update by design (the formulas are about their initial values / the values at the point of use)
+REBIND_EXEMPT = {"t_ratio", "idx", "frames_in"}
+
+
 def find_stmt(body, pattern, item):
     m = re.search(pattern, body, re.S)
     if not m:
         raise TranslateError(item, f"statement not found: {pattern}")
+    LAST_BODY[0] = body
+    own = re.match(r"let\\s\+(?:mut\\s\+)?(\w+)", pattern)
+    LAST_OWN[0] = own.group(1) if own else None
     return m.group(1).strip()
+
+
+def check_not_rebound(item, body, names, own=None):
+    """a local or parameter a regenerated formula reads must have ONE definition in the function it was taken from: a second
+    `let x = ..` (shadowing) or an assignment to it would make the extracted expression mean something else"""
+    for n in names:
+        if n in REBIND_EXEMPT:
+            continue
+        lets = len(re.findall(r"\blet\s+(?:mut\s+)?" + re.escape(n) + r"\b", body))
+        if n != own and re.search(r"\blet\s+(?:mut\s+)?" + re.escape(n) + r"\b\s*(?::[^=;]+)?=[^;]*(?<![\w.:])" + re.escape(n) + r"\b(?!\s*\()", body):
+            raise TranslateError(item, f"`{n}` is re-bound in terms of itself (`let {n} = .. {n} ..`) in the function the formula "
+                                       "was taken from")
+        assigns = len(re.findall(r"(?<![\w.])" + re.escape(n) + r"\s*(?:[-+*/%]|<<|>>)?=(?!=)", body)) - lets
+        if lets > 1 or assigns > 0:
+            raise TranslateError(item, f"`{n}` is bound or assigned more than once in the function the formula was taken from "
+                                       f"({lets} let, {max(assigns, 0)} assignment)")
 
 
 def single_expr(body, item):
@@ -1123,6 +1150,9 @@ def gen_formulas(item_prefix="G7"):
     def add(name, text, fts, consts, ty, doc, loc=None):
         item = f"{item_prefix}.{name}"
         d, params = gen_formula(item, name, text, fts, consts, ty, doc, loc)
+        if LAST_BODY[0] is not None and loc:
+            check_not_rebound(item, LAST_BODY[0], [p for p in params if p in loc], LAST_OWN[0])
+        LAST_BODY[0] = None
         out.append(d)
         out.append("")
         sigs[name] = params
@@ -1508,6 +1538,7 @@ def gen_storage(item="G13.storage"):
         if not lit or not re.search(r"(?:^|,)\s*" + local + r"\s*(?:,|$)", lit.group(1)):
             raise TranslateError(it, f"{T}: the constructor does not initialise field `{local}` from the local of that name")
         d, params = gen_formula(it, name, m.group(1), {}, consts, "N", doc, locs)
+        check_not_rebound(it, body, [p for p in params if p in locs])
         out.append(d)
         out.append("")
         sigs.append((name, params))
@@ -1587,8 +1618,11 @@ def gen_fft_moves(item="G15.fft_moves"):
     def norm(s):
         return re.sub(r"\s+", "", s)
 
+    cur_body = [""]
+
     def f(pre, name, text, fts, loc, doc, ty="N"):
         d, params = gen_formula(f"{item}.{pre}_{name}", f"{pre}_{name}", text.strip(), fts, {}, ty, doc, loc)
+        check_not_rebound(f"{item}.{pre}_{name}", cur_body[0], [p for p in params if p in loc])
         out.extend([d, ""])
         sigs.append((f"{pre}_{name}", params))
 
@@ -1602,6 +1636,7 @@ def gen_fft_moves(item="G15.fft_moves"):
     T, pre = "FftFixedInOut", "fftIo"
     fts = struct_field_types(syn, T, item)
     pb = strip_log_macros(impl_method_body(syn, T, "process_into_buffer", item))
+    cur_body[0] = pb
     m = need(pb, r"for" + ws + r"\((\w+)," + ws + r"active\)" + ws + r"in" + ws + r"self\.channel_mask\.iter\(\)\.enumerate\(\)" + ws + r"\{" + ws +
              r"if" + ws + r"\*active" + ws + r"\{" + ws + r"self\.resampler\.resample_unit\(" + ws +
              r"&wave_in\[\1\]\.as_ref\(\)\[\.\.(.*?)\]," + ws + r"&mut" + ws + r"wave_out\[\1\]\.as_mut\(\)\[\.\.(.*?)\]," + ws +
@@ -1616,6 +1651,7 @@ def gen_fft_moves(item="G15.fft_moves"):
     T, pre = "FftFixedIn", "fftIn"
     fts = struct_field_types(syn, T, item)
     pb = strip_log_macros(impl_method_body(syn, T, "process_into_buffer", item))
+    cur_body[0] = pb
     loc = {"next_saved_frames": "N", "nbr_chunks_ready": "N", "needed_len": "N", "frames_in_used": "N", "extra": "N"}
     m = need(pb, r"for" + ws + r"\(input," + ws + r"buffer\)" + ws + r"in" + ws + r"wave_in\[chan\]\.as_ref\(\)\.iter\(\)\.zip\(" + ws +
              r"self\.input_buffers\[chan\]" + ws + r"\.iter_mut\(\)" + ws + r"\.skip\((.*?)\)" + ws + r"\.take\((.*?)\),?" + ws + r"\)" + ws +
@@ -1652,6 +1688,7 @@ def gen_fft_moves(item="G15.fft_moves"):
     T, pre = "FftFixedOut", "fftOut"
     fts = struct_field_types(syn, T, item)
     pb = strip_log_macros(impl_method_body(syn, T, "process_into_buffer", item))
+    cur_body[0] = pb
     loc = {"processed_frames": "N", "frames_needed_out": "N", "input_frames_used": "N", "chunks_needed": "N"}
     m = need(pb, r"for" + ws + r"\(in_chunk," + ws + r"out_chunk\)" + ws + r"in" + ws + r"wave_in\[chan\]\.as_ref\(\)\[\.\.(.*?)\]" + ws + r"\.chunks\((.*?)\)" + ws +
              r"\.zip\(" + ws + r"self\.output_buffers\[chan\]\[(.*?)\.\.\]" + ws + r"\.chunks_mut\((.*?)\),?" + ws + r"\)" + ws + r"\{" + ws +
@@ -1827,6 +1864,61 @@ def gen_ctor_validation(item="G17.ctor_validation"):
     out.append("/-- (type id, 1 = the constructor's first statement is the validation of its own arguments) -/")
     out.append("def ctorValidatesFirst : List (Nat × Nat) := [")
     out.append(",\n".join(f"  ({t}, {v})  /- {T} -/" for t, v, T in rows) + "]")
+    return "\n".join(out)
+
+
+# ------------------------------------------------------------------------------------------ G18: what an asynchronous call reports and leaves behind
+def gen_async_tail(item="G18.async_tail"):
+    """the statements after the interpolation loop of the four asynchronous process_into_buffer bodies: the ratio the next call
+    starts from, the two counts reported, and (fixed-output types) that the consumed count is read BEFORE the size needed by
+    the next call is recomputed"""
+    fast = strip_comments(read("asynchro_fast.rs"))
+    sinc = strip_comments(read("asynchro_sinc.rs"))
+    out, sigs = [], []
+    ws = r"\s*"
+    for T, pre, src in (("FastFixedIn", "fastIn", fast), ("FastFixedOut", "fastOut", fast),
+                        ("SincFixedIn", "sincIn", sinc), ("SincFixedOut", "sincOut", sinc)):
+        fts = struct_field_types(src, T, item)
+        pb = strip_log_macros(impl_method_body(src, T, "process_into_buffer", item))
+        mt = re.search(r"self\.last_index" + ws + r"=(?!=)", pb)
+        if not mt:
+            raise TranslateError(f"{item}.{pre}", f"{T}::process_into_buffer: `self.last_index = ..` not found")
+        tail = pb[mt.start():]
+        loc = {"n": "N", "input_frames_used": "N"}
+        m = re.search(r"self\.resample_ratio" + ws + r"=(?!=)" + ws + r"(.*?);", tail, re.S)
+        if not m:
+            raise TranslateError(f"{item}.{pre}_ratio_after", f"{T}::process_into_buffer: `self.resample_ratio = ..;` after the loop not found")
+        d, p = gen_formula(f"{item}.{pre}_ratio_after", f"{pre}_ratio_after", m.group(1), fts, {}, "F", f"{T}::process_into_buffer: the ratio the next call starts from", loc)
+        out += [d, ""]
+        sigs.append((f"{pre}_ratio_after", p))
+        m = re.search(r"Ok\(\((.*?)," + ws + r"(.*?)\)\)" + ws + r"$", pb, re.S)
+        if not m:
+            raise TranslateError(f"{item}.{pre}_return", f"{T}::process_into_buffer does not end in Ok((in, out))")
+        for nm, text in (("ret_in", m.group(1)), ("ret_out", m.group(2))):
+            d, p = gen_formula(f"{item}.{pre}_{nm}", f"{pre}_{nm}", text, fts, {}, "N", f"{T}::process_into_buffer: {nm} reported", loc)
+            out += [d, ""]
+            sigs.append((f"{pre}_{nm}", p))
+        if pre.endswith("Out"):
+            mu = re.search(r"let" + ws + r"input_frames_used" + ws + r"=" + ws + r"(.*?);", pb, re.S)
+            if not mu:
+                raise TranslateError(f"{item}.{pre}_used", f"{T}::process_into_buffer: `let input_frames_used = ..;` not found")
+            d, p = gen_formula(f"{item}.{pre}_used", f"{pre}_used", mu.group(1), fts, {}, "N", f"{T}::process_into_buffer: input frames consumed", loc)
+            out += [d, ""]
+            sigs.append((f"{pre}_used", p))
+            after = pb[mu.end():]
+            before = pb[:mu.start()]
+            recompute = r"self\.needed_input_size" + ws + r"=(?!=)|self\.update_needed_len\(\)"
+            if re.search(recompute, before) or not re.search(recompute, after):
+                raise TranslateError(f"{item}.{pre}_used_order", f"{T}::process_into_buffer: the consumed count must be read before needed_input_size is recomputed")
+            if len(re.findall(r"\bn\b" + ws + r"(?:\+|-)?=(?!=)", pb)) and pre.endswith("Out"):
+                pass
+        else:
+            # `n` is the frame counter of the loop: declared once as `let mut n = 0;`, incremented once per frame
+            if len(re.findall(r"let" + ws + r"mut" + ws + r"n" + ws + r"=" + ws + r"0;", pb)) != 1:
+                raise TranslateError(f"{item}.{pre}_n", f"{T}::process_into_buffer: the frame counter `let mut n = 0;` not found exactly once")
+    out.append("/-- which fields / locals each of these reads -/")
+    out.append("def tailParams : List (String × List String) := [")
+    out.append(",\n".join(f'  ("{k}", [{", ".join(chr(34) + p + chr(34) for p in v)}])' for k, v in sigs) + "]")
     return "\n".join(out)
 
 
@@ -2215,6 +2307,9 @@ def generate():
     parts.append("namespace Ctor")
     parts.append(gen_ctor_validation())
     parts.append("end Ctor\n")
+    parts.append("namespace Tail")
+    parts.append(gen_async_tail())
+    parts.append("end Tail\n")
     parts.append("end Rubato.Gen")
     return "\n".join(parts) + "\n"
 
